@@ -43,4 +43,7 @@ TEXT["C08"] = {"technique": "Coq proof of the frame property on the node model +
 TEXT["C16"] = {"technique": "Coq proof (invariant over all schedules of the regenerated step list of send; sequential and read theorems) + concurrent goroutine/process runs on the real file storage",
   "level": "Theorems: for ANY number of writers and ANY schedule of the atomic steps Lock;Seek;Count;Marshal;Write;Unlock (the list regenerated from fileStorage.go and proved equal to this one), offsets are positions without gaps or repeats and earlier entries never change; sequential sends keep order and appear once; reading from k returns exactly positions k.. minus ignored entries - for every line length up to the reader's limit (both scanner limits regenerated and proved equal to 1 MiB after fix 8ab9ea1). Tied by concurrent runs (goroutines and OS processes) whose observed order is replayed on the model.",
   "note": "flock and O_APPEND atomicity are the operating system's (partial: not modelled below the call level)." + COMMON_NOTE}
+TEXT["C13"] = {"technique": "Coq refutation witness + partial theorems on the node model with crash semantics; exhaustive crash-point enumeration on a real node",
+  "level": "The full statement is REFUTED in Coq (witness: proposal killed between SaveFSM and PutOperation; the operation is never offered again) and reproduced on the real node: open finding. Partial theorems: a crash before the handler's first round write leaves all rounds untouched; a clean restart changes nothing durable (holds after fix 0030bbe). Every durable write of every message of a ceremony is a crash point in the harness (exhaustive for the history), each compared with the model's crash semantics.",
+  "note": "LevelDB / file-system durability trusted; API-request crash points and multiple crashes not enumerated in this round." + COMMON_NOTE}
 NOT_APPLICABLE = {}
